@@ -201,13 +201,15 @@ ExtShape(sh) == LET ext == SelectSeq([k \in DOMAIN sh.shape |-> k], LAMBDA k : s
 ---------------------------------------------------------------------------
 (* Row-major index arithmetic. *)
 Strides(shape)     == [k \in DOMAIN shape |-> SeqProduct(SubSeq(shape, k + 1, Len(shape)))]   \* shape_to_strides
-Unravel(shape, l)  == [k \in DOMAIN shape |-> (l \div Strides(shape)[k]) % shape[k]]          \* _shape_to_key
-Ravel(shape, key)  == SeqSum([k \in DOMAIN shape |-> key[k] * Strides(shape)[k]])
+Unravel(shape, l)  == LET st == Strides(shape) IN [k \in DOMAIN shape |-> (l \div st[k]) % shape[k]]   \* _shape_to_key
+Ravel(shape, key)  == LET st == Strides(shape) IN SeqSum([k \in DOMAIN shape |-> key[k] * st[k]])
 IndexSet(shape)    == {t \in [DOMAIN shape -> 0..(SeqMax(shape) - 1)] : \A k \in DOMAIN shape : t[k] < shape[k]}
 LexLess(a, b)      == \E k \in DOMAIN a : a[k] < b[k] /\ \A j \in 1..(k - 1) : a[j] = b[j]
 
-(* MapSpec.output_key(shape, linear_index) / input_keys(shape, linear_index); `ext` is the         *)
-(* external shape: Len(ext) = Len(ExternalIndices(m)).                                             *)
+(* MapSpec.output_key(shape, linear_index) / input_keys(shape, linear_index).  `ext` is the        *)
+(* external shape, Len(ext) = Len(ExternalIndices(m)): the map has one element per position of the  *)
+(* external axes (an element fills the whole block of internal axes, if any), elements are numbered *)
+(* 0..Prod(ext)-1 in row-major order.                                                              *)
 KeyShapeOK(m, ext) == Len(ext) = Len(ExternalIndices(m))
 
 OutputKey(m, ext, l) == Unravel(ext, l)
@@ -269,19 +271,21 @@ LawOutputKeyBijection(m, ext) ==
     LET N      == SeqProduct(ext)
         key(l) == OutputKey(m, ext, l)
     IN  /\ {key(l) : l \in 0..(N - 1)} = IndexSet(ext)
-        /\ \A l1, l2 \in 0..(N - 1) : l1 < l2 => LexLess(key(l1), key(l2))
+        /\ \A l \in 0..(N - 2) : LexLess(key(l), key(l + 1))     \* hence l1 < l2 => key(l1) < key(l2)
         /\ \A l \in 0..(N - 1) : Ravel(ext, key(l)) = l
 
 (* input_keys: for linear index l, input x gets exactly the entries whose named axes carry the     *)
 (* value that the output position at l has for that index name; ':' axes are taken whole.          *)
 LawInputKeysSelect(m, insh, ext) ==
-    \A l \in 0..(SeqProduct(ext) - 1) :
-        LET pos       == OutputKey(m, ext, l)
-            at(idx)   == pos[FirstPos(ExternalIndices(m), idx)]         \* the position, by index name
-        IN  \A x \in DOMAIN m.ins :
-               KeyDenotes(InputKeys(m, ext, l)[x], insh[x])
-                 = {e \in IndexSet(insh[x]) : \A k \in DOMAIN insh[x] :
-                        m.ins[x].axes[k] # COLON => e[k] = at(m.ins[x].axes[k])}
+    LET entries == [x \in DOMAIN m.ins |-> IndexSet(insh[x])]            \* all entries of input x
+        ext_idx == ExternalIndices(m)
+    IN  \A l \in 0..(SeqProduct(ext) - 1) :
+          LET pos     == OutputKey(m, ext, l)
+              keys    == InputKeys(m, ext, l)
+              at(idx) == pos[FirstPos(ext_idx, idx)]                    \* the position, by index name
+          IN  \A x \in DOMAIN m.ins : \A e \in entries[x] :              \* e \in KeyDenotes(keys[x], insh[x]) <=> ...
+                 (\A k \in DOMAIN insh[x] : keys[x][k] = ALL \/ keys[x][k] = e[k])
+                   <=> (\A k \in DOMAIN insh[x] : m.ins[x].axes[k] # COLON => e[k] = at(m.ins[x].axes[k]))
 
 (* rename: well-formedness (and regularity, for an injective renaming) is kept when the new        *)
 (* names are lexically fine; the mapping is the same mapping under the new names.                  *)
